@@ -74,9 +74,15 @@ example : isOk (Pipe.runOp db "$facet" (.doc [("p", .arr [.doc [("$limit", .int 
 theorem match_eq_find (f : Val) (docs out : List Val) (h : Pipe.matchStage f docs = .ok out) :
     out.Sublist docs ∧
     (∀ d, d ∈ out ↔ d ∈ docs ∧ filterApplies (patch f) (patch d) = .ok true) ∧
-    ((∀ d ∈ docs, patch d = d) → docs ≠ [] → Pipe.findDocs f docs = .ok out) := by
+    ((∀ d ∈ docs, patch d = d) → Pipe.findDocs f docs = .ok out) := by
   obtain ⟨h1, h2, _⟩ := Pipe.Proofs.matchStage_ok h
-  exact ⟨h1, h2, fun hn hne => by rw [← Pipe.Proofs.matchStage_eq_findDocs f docs hn hne]; exact h⟩
+  exact ⟨h1, h2, fun hn => by rw [← Pipe.Proofs.matchStage_eq_findDocs f docs hn]; exact h⟩
+
+/-- … and `$match` refuses exactly the filters `find` refuses, the empty collection included
+    (the two entry points are one function of the filter and the stored documents). -/
+theorem match_is_find (f : Val) (docs : List Val) (hn : ∀ d ∈ docs, patch d = d) :
+    Pipe.matchStage f docs = Pipe.findDocs f docs :=
+  Pipe.Proofs.matchStage_eq_findDocs f docs hn
 
 example : isOk (Pipe.matchStage (.doc [("k", .int 1)]) sample) = true := by decide +kernel
 
